@@ -362,9 +362,26 @@ def r19_3(ctx):
                         r = ex[1] if ex and ex[0] == "return" else None
                         got = isinstance(r, ListV) and any(isinstance(x, Obj) and x.name == "O" for x in r.items)
                         if not isinstance(r, ListV):
-                            ctx.violation(construct(g, "undetermined"), g.loc(), f"{g.qualname}: result not determined for log {log}, times {tl}: {r!r}")
+                            raise AnalysisError(f"R19.3: {g.qualname}: result not determined for log {log}, times {tl}: {r!r}")
                         elif got != exp:
                             ctx.violation(construct(g, "membership"), g.loc(), f"{g.qualname}: log {list(log)}, requested times {tl}: object is {'kept' if got else 'dropped'} (expected {'kept' if exp else 'dropped'})")
+            # two distinct objects that carry the same ID string (a copy, an ID given twice) and both qualify: both are returned
+            O1, O2 = Obj("O1", ecls), Obj("O2", ecls)
+            heap = {}
+            for o in (O1, O2):
+                heap[(o.name, "state_record_list")] = ListV([E(enum, member), E(enum, member)], True, "list")
+                heap[(o.name, "ID")] = Const("same-id")
+                heap[(o.name, "name")] = Const("same-name")
+            I = mk_interp(ctx, inline=lambda call, callee, depth: callee.cls == cls, collections={f"self.{coll}": [O1, O2]}, max_depth=2)
+            for st, ex in I.run_function(g, bind={"target_time_list": ListV([Poly.const(0), Poly.const(1)], True, "list")}, heap=heap):
+                ncell += 1
+                r = ex[1] if ex and ex[0] == "return" else None
+                if not isinstance(r, ListV):
+                    raise AnalysisError(f"R19.3: {g.qualname}: result for two qualifying objects with equal IDs is not determined ({r!r})")
+                kept = sorted({x.name for x in r.items if isinstance(x, Obj)})
+                if kept != ["O1", "O2"]:
+                    ctx.violation(construct(g, "equal-ids"), g.loc(), f"{g.qualname}: two distinct objects with the same ID string both show {member} at the requested times, "
+                                  f"but the result holds {kept or 'neither'}: objects are identified by ID somewhere on the way (a dict / set keyed by ID), so one of them is lost")
             ctx.instance(construct(g, "table"), cells=ncell)
     ctx.end()
 
